@@ -316,6 +316,35 @@ R"(
         type);
 }
 
+// escapes characters which are special inside a C++ string literal so that
+// the literal's value is exactly `str`
+inline std::string escape_string_literal(const std::string_view str)
+{
+    std::string res;
+    res.reserve(str.size());
+    for(const auto c : str)
+    {
+        switch(c)
+        {
+        case '"':
+            res += "\\\"";
+            break;
+        case '\\':
+            res += "\\\\";
+            break;
+        case '\n':
+            res += "\\n";
+            break;
+        case '\r':
+            res += "\\r";
+            break;
+        default:
+            res += c;
+        }
+    }
+    return res;
+}
+
 inline std::string make_string_constant(
     const std::string& const_value,
     const length_t type_length,
